@@ -8,8 +8,18 @@ import subprocess, sys, os
 ROOT = os.path.dirname(os.path.dirname(os.path.abspath(__file__)))
 MUT = os.path.join(ROOT, "selftest", "mutants")
 
+import signal
+def _term(signum, frame):
+    raise KeyboardInterrupt()
+signal.signal(signal.SIGTERM, _term)
+
 def sh(cmd, **kw):
-    return subprocess.run(cmd, shell=isinstance(cmd, str), text=True, capture_output=True, **kw)
+    try:
+        return subprocess.run(cmd, shell=isinstance(cmd, str), text=True, capture_output=True, **kw)
+    except subprocess.TimeoutExpired as e:
+        class R: pass
+        r = R(); r.returncode = 124; r.stdout = (e.stdout or b"").decode() if isinstance(e.stdout, bytes) else (e.stdout or ""); r.stderr = "timeout"
+        return r
 
 def clean():
     r = sh("git -C /repo status --porcelain --untracked-files=no")
@@ -57,7 +67,7 @@ def main():
         if r.returncode != 0: print("apply failed", r.stderr); sys.exit(2)
         try:
             for prop in args:
-                r = sh(f"{ROOT}/check {prop} --tier {tier}")
+                r = sh(f"timeout 1500 {ROOT}/check {prop} --tier {tier}")
                 lines = [l for l in r.stdout.splitlines() if l.startswith(("VIOLATION", "DETAIL", "KNOWN", "ENGINE", "SUMMARY"))]
                 print(f"== {os.path.basename(patch)} {prop}: rc={r.returncode}")
                 for l in lines[:12]: print("   ", l[:300])
